@@ -38,7 +38,7 @@ def _case(draw, tier):
         (3, ops.delete_op(PIDS)),
         (1, ops.dii_op(3)),
         (1, ops.REOPEN))
-    return {"cfg": cfg, "contents": cs, "ops": draw(st.lists(op, min_size=2, max_size=24))}
+    return {"cfg": cfg, "contents": cs, "ops": draw(st.lists(ops.on_instances(op), min_size=2, max_size=24))}
 
 
 def strategy(tier):
